@@ -204,9 +204,11 @@ func H02_total() {
 	}
 	expr, ty, cls := FrontOnce(e, p.src, tys, p.names)
 	vals := map[string]*val.Val{}
+	MaxLenQuick = 2
 	for i, n := range p.names {
 		vals[n] = AnyVal(p.tys[i], n)
 	}
+	MaxLenQuick = 3
 	res, ty, class := backendRun(e, expr, ty, cls, vals, p.names)
 	sv.Assert("total", class == "ok")
 	if class == "ok" {
